@@ -20,6 +20,7 @@ CORPUS = {
                                                           "let org = /orgs/{ 'org int };\nlet members = concat org (/members?{ 'org str });\nres members on get -> <status=200, [item]>;\n",
     "path-variable-names-with-punctuation": "let rev = /items/{ 'item-id int }/revisions/{ 'rev_no int };\nres /items/{ 'item-id int } on get -> <{}>;\nres rev on get -> <{}>;\n"
                                             "let joined = concat /plain/{ 'x$y str } (/sub/{ 'a-b-c int });\nres joined on get -> <{}>;\n",
+    "paths-that-differ-by-a-trailing-slash": "res /items on get -> <{}>;\nres /items/ on get -> <{}>;\nres / on get -> <{}>;\nres /items/{ 'id int } on get -> <{}>;\nres /items/{ 'id int }/ on get -> <{}>;\n",
     "refs-explicit": "let @thing = { 'id! int, 'next? @thing };\nlet @name = str;\nres /things on get -> <[@thing]>;\nres /names on get -> <@name>;\n",
     "refs-implicit-recursion": "let tree = rec x { 'children [x] };\nlet node = { 'left? node, 'v num };\nres /t on get -> <tree>;\nres /n on put : <node> -> <node>;\n",
     "refs-annotated": "# description: \"a described thing\", title: \"Thing\"\nlet @d = { 'a num };\n# description: \"a described name\"\nlet @n = str `title: \"N\"`;\nlet @arr = [@d];\nres /d on get -> <@d>;\nres /n on get -> <{ 'n @n, 'arr @arr }>;\n",
@@ -518,6 +519,12 @@ def operation_id_lemma(o, L, M, bad, F):
     if sep is None or not shape:
         o.inconc("xfer_id: the synthesised identifier is not `join(sep, method label ++ segment labels)` any more - the injectivity query does not apply")
         return False
+    # every segment of the path contributes a label: between the path's iterator and the join nothing drops, skips or
+    # merges elements (two paths that differ in a segment the identifier does not mention get the same identifier)
+    dropping = re.findall(r"Iterator::(filter|filter_map|skip|skip_while|take|take_while|step_by|flat_map|flatten|dedup|peekable|zip)\b", txt)
+    o.query("xfer_id: every path segment contributes one label (no adaptor between the path and the join drops elements)", "mirsym/structural", "unsat" if not dropping else "violated", 0)
+    if dropping:
+        bad.append("xfer_id: path segments can be left out of the synthesised operationId (%s)" % ", ".join(sorted(set(dropping))))
     m = re.search(r'#\[regex\("/(\[[^\]]+\])\+"\)\]\s*PathElementSegment', open(os.path.join(REPO, "oal-syntax/src/lexer.rs")).read())
     cls = m.group(1) if m else "[0-9a-zA-Z%~_.-]"
     o.extra["operation_id"] = {"separator": sep, "segment_alphabet": cls}
